@@ -40,14 +40,18 @@ def skeletons(pmax):
 # skeletons with three variables in which a constituent has two derivations over the same span, one of them
 # through another variable (so that the same chart state is reached with bound and with unbound features)
 AGREEMENT = [(3, 2, ((0, (1, 2)), (1, (2,)), (1, (3,)), (2, (3,)), (2, (4,)))),     # S -> A B; A -> B | a; B -> a | b
-             (3, 2, ((0, (1, 4)), (1, (2,)), (1, (3,)), (2, (3,))))]                # S -> A b; A -> B | a; B -> a
+             (3, 2, ((0, (1, 4)), (1, (2,)), (1, (3,)), (2, (3,)))),                # S -> A b; A -> B | a; B -> a
+             # a variable that is nullable only through another one and is needed twice at one input position
+             (3, 2, ((0, (1, 1, 3)), (1, (2, 2)), (2, ()), (2, (4,))))]             # S -> A A a; A -> B B; B -> eps | b
 
 
 def agreement_cases(max_annotated):
     for si, sk in enumerate(AGREEMENT):
         pos = positions(sk)
+        # the third skeleton has 8 variable occurrences: at most 2 (thorough: 3) of them annotated
+        cap = max_annotated if si < 2 else (2 if max_annotated <= 4 else 3)
         for ann in product(range(4), repeat=len(pos)):
-            if sum(1 for a in ann if a) <= max_annotated:
+            if sum(1 for a in ann if a) <= cap:
                 yield ("fcfg", -1, si, ann)
 
 
